@@ -115,8 +115,16 @@ def _save_loop(run):
     raise AnchorVanished('TorConfig.save: loop over self.unsaved.items()')
 
 
+def _args_name(sv):
+    for c in calls_in(sv):
+        if callee_attr(c) == 'set_conf' and starred_arg_name(c):
+            return starred_arg_name(c)
+    raise Undecided('save: set_conf(*<list>) not found')
+
+
 def r10_3(run):
     sv, loop, key, value = _save_loop(run)
+    AN = _args_name(sv)
     g = cfg_of(sv)
     outer = [n for n in g.live if n.kind == 'iter' and n.ast is loop]
     if not outer:
@@ -125,16 +133,16 @@ def r10_3(run):
     tests = [t for t in g.live if t.kind == 'test' and isinstance(t.ast, ast.Call) and dotted(t.ast.func) == 'isinstance' and
              dotted(t.ast.args[0]) == value and dotted(t.ast.args[1]) == 'list' and t.owner in ast.walk(loop)]
     # the first such test after the HiddenServices leg decides list vs scalar emission
-    emit_tests = [t for t in tests if any(isinstance(a, ast.Call) and dotted(a.func) == 'args.append' for b in (t.owner.body + t.owner.orelse) for a in ast.walk(b))]
+    emit_tests = [t for t in tests if any(isinstance(a, ast.Call) and dotted(a.func) == AN + '.append' for b in (t.owner.body + t.owner.orelse) for a in ast.walk(b))]
     run.floor('R10.3', 'list/scalar emission tests in save', len(emit_tests), 1)
     region = set(id(a) for t in emit_tests for b in (t.owner.body + t.owner.orelse) for a in ast.walk(b))
     inner_loops = [n for n in g.live if n.kind == 'iter' and id(n.ast) in region and mentions(n.ast.iter, value)]
 
     def is_key_append(a):
-        return isinstance(a, ast.Call) and dotted(a.func) == 'args.append' and a.args and dotted(a.args[0]) == key
+        return isinstance(a, ast.Call) and dotted(a.func) == AN + '.append' and a.args and dotted(a.args[0]) == key
 
     def is_val_append(a):
-        return isinstance(a, ast.Call) and dotted(a.func) == 'args.append' and a.args and dotted(a.args[0]) != key
+        return isinstance(a, ast.Call) and dotted(a.func) == AN + '.append' and a.args and dotted(a.args[0]) != key
     for t in emit_tests:
         paths = g.paths(start=t, stop=lambda n: n is outer, loop_bound=1, follow_exc=False)
         run.paths_enumerated += len(paths)
@@ -205,13 +213,14 @@ def r10_3(run):
 
 def r10_4(run):
     sv, loop, key, value = _save_loop(run)
+    AN = _args_name(sv)
     g = cfg_of(sv)
     sc = [c for c in calls_in(sv) if callee_attr(c) == 'set_conf']
     run.floor('R10.4', 'set_conf calls in save', len(sc), 1)
     for c in sc:
         in_loop = any(c is a for l in ast.walk(sv.node) if isinstance(l, (ast.For, ast.While)) for a in ast.walk(l))
         run.ob('R10.4', sv, c, 'set_conf is outside every loop', not in_loop, slot='outside-loop', message='set_conf is called inside a loop (one SETCONF per option)')
-        ok = len(c.args) == 1 and isinstance(c.args[0], ast.Starred) and dotted(c.args[0].value) == 'args'
+        ok = len(c.args) == 1 and isinstance(c.args[0], ast.Starred) and dotted(c.args[0].value) == AN
         run.ob('R10.4', sv, c, 'set_conf receives the collected arguments', ok, slot='args', message='set_conf called with %s' % src(c)[:60])
         run.ob('R10.4', sv, c, 'set_conf goes to the attached protocol', dotted(c.func) == 'self.protocol.set_conf', slot='receiver', message='set_conf receiver is %s' % dotted(c.func))
     for needs in (True, False):
@@ -244,9 +253,9 @@ def r10_4(run):
     run.ob('R10.4', ns, ns.node, 'needs_save looks at the pending set', ok, slot='needs_save', message='needs_save returns %s' % [src(r.value) for r in rets])
     # args only ever appended to
     for n in walk_unit(sv):
-        if isinstance(n, ast.Call) and (dotted(n.func) or '').startswith('args.') and callee_attr(n) not in ('append',):
+        if isinstance(n, ast.Call) and (dotted(n.func) or '').startswith(AN + '.') and callee_attr(n) not in ('append',):
             run.ob('R10.4', sv, n, 'argument list is append-only', False, slot='args-mutation:%s' % callee_attr(n), message='save mutates args with %s' % callee_attr(n))
-    a_defs = [v for st, v in [(s, s.value) for s in walk_unit(sv) if isinstance(s, ast.Assign) and dotted(s.targets[0]) == 'args']]
+    a_defs = [v for st, v in [(s, s.value) for s in walk_unit(sv) if isinstance(s, ast.Assign) and dotted(s.targets[0]) == AN]]
     run.ob('R10.4', sv, sv.node, 'argument list starts empty', len(a_defs) == 1 and isinstance(a_defs[0], ast.List) and not a_defs[0].elts, slot='args-init', message='args initialised %d times' % len(a_defs))
 
 
